@@ -103,6 +103,9 @@ def shards(tier, seed):
         for shape in ((300, 4096), (33000, 40)):
             for cross in (True, False):
                 out.append({"part": "D", "backend": backend, "K": shape[0], "L": shape[1], "cross": cross, "seed": seed})
+    # one bin whose gathered samples exceed 2^25 (K*L = 34e6): beyond the block size of any gather-and-multiply fallback
+    for cross in (True, False):
+        out.append({"part": "D", "backend": "numpy", "K": 850, "L": 40000, "cross": cross, "seed": seed, "orders": [0, 2] if cross else [-1, 1]})
     for backend in ("numba", "numpy", "cuda"):
         out.append({"part": "V", "backend": backend, "seed": seed})
     for cross in (True, False):  # CUDA host wrappers with more than one block of threads (K=300 > 256)
@@ -375,12 +378,12 @@ def _part_D(shard):
     starts = np.ascontiguousarray((np.arange(K, dtype=np.int64) * step)[::-1])  # descending: unsorted starts
     fails, samples = [], []
     evals = nontriv = 0
-    for order in ORDERS:
+    for order in shard.get("orders", ORDERS):
         k = kern.get_kernel(backend, cross, order)
-        for wn, w in (("hann", 2 * np.pi * 3.37 / L), ("gapneg", 0.9)):
+        for wn, w in (("hann", 2 * np.pi * 3.37 / L), ("gapneg", 0.9)) if K * L < (1 << 25) else (("hann", 2 * np.pi * 12345.3 / L),):
             win = _window(wn, L)
             ref = est.ref_stats(x, y if cross else None, starts, L, win, w, order)
-            tol = est.tolerances(x, y if cross else None, starts, L, win, m2ref=ref[4])
+            tol = est.tolerances(x, y if cross else None, starts, L, win, m2ref=ref[4], omega=(w if L >= 4096 else None))
             got = k(x, y if cross else None, starts, L, win, float(w))
             evals += 1
             nontriv += int(kern.nontrivial(ref, tol))
